@@ -701,7 +701,10 @@ class Exec:
                 s.run(); end = 'complete'
             except PathEnd as e:
                 end = e.kind
-                if e.kind == 'throw': end = 'throw:' + str(e.info)
+                if e.kind == 'throw':
+                    end = 'throw:' + str(e.info)
+                    # an exception that escapes the harness entry: every harness catches what the property allows, so this is a violation
+                    s.violation('throw', 'exception %s escapes the harness' % e.info)
                 if e.kind == 'split': splits.append(list(s.dec))
             except Violation as v:
                 s.violation(v.kind, v.msg); end = 'violation:' + v.kind
